@@ -103,12 +103,12 @@ StepClauses(p, r) ==
     \cup
     FailClause("C03.Propagated",
                (IsReply(r) /\ IsOk(out)) =>
-                  \A c \in C : Affected(c, t) \subseteq todo'[c] \cup doing'[c])
+                  \A c \in C : Affected(c, t) \subseteq todo'[c])
     \cup
     \* ---- C02 (step part)
     FailClause("C02.Complete",
                (IsReply(r) /\ IsOk(out)) =>
-                  \A c \in C : Affected(c, t) \subseteq todo'[c] \cup doing'[c])
+                  \A c \in C : Affected(c, t) \subseteq todo'[c])
     \cup
     FailClause("C02.Minimal",
                (r.ev = "Reply" /\ IsOk(out)) => \A c \in Alg \ C : todo'[c] = todo[c])
